@@ -506,6 +506,9 @@ func (w *world) runOps(c *Ctx, im *Impl, cf *CaseFile) {
 	if w.spec.dials {
 		w.dialCases(c, im, cf)
 	}
+	if w.spec.listener {
+		w.acceptedCases(c, im, cf)
+	}
 }
 
 var unknownNode = "nowhere"
